@@ -205,14 +205,19 @@ def gen_policy(rnd, name):
     for p in range(nper):
         last = p == nper - 1
         to = 'max' if (last and rnd.random() < 0.7) else str(y + rnd.choice([0, 2, 5, 9]))
-        to_s = 'only' if to == str(y) else to
         # a period that ends must end in standard time (no source leaves a zone in DST forever): spring rule first
         m1, m2 = rnd.choice([(3, 10), (4, 9), (3, 11), (10, 3), (9, 4), (1, 7)]) if to == 'max' else rnd.choice([(3, 10), (4, 9), (3, 11), (1, 6)])      # (January rules: a basic-scope filter exists for those that fall on Jan 1)
+        if m1 == 1 and to == 'max':
+            # (beyond 2037 zic speaks through a POSIX-TZ footer, and glibc evaluates a footer rule for the UTC year of the
+            #  instant: a transition in the first hours of January local time is misplaced by zdump; end the rule in 2036)
+            to = '2036'
+            last = True
+        to_s = 'only' if to == str(y) else to
         at = rnd.choice(ATS)
         on1, on2 = rnd.choice(ONS), rnd.choice(ONS)
         lines.append('Rule\t%s\t%d\t%s\t-\t%s\t%s\t%s\t%s\t%s' % (name, y, to_s, MONTHS[m1 - 1], on1, at, save, letters[1]))
         lines.append('Rule\t%s\t%d\t%s\t-\t%s\t%s\t%s\t0\t%s' % (name, y, to_s, MONTHS[m2 - 1], on2, rnd.choice(ATS), letters[0]))
-        if to == 'max':
+        if to == 'max' or to == '2036':
             break
         y = int(to) + 1 + rnd.choice([0, 1, 3])
     return lines
